@@ -220,11 +220,11 @@ def parse_scn_text(text):
 
 # ---------------------------------------------------------------- traces
 
-LINE_RE = re.compile(r"^(\S+) ret=(-?\d+) ev=(\S*) m=(\S*) q=(\S+) st=(\S+)$")
+LINE_RE = re.compile(r"^(\S+) ret=(-?\d+) ev=(\S*) m=(\S*) q=(\S+) b=(\S+) st=(\S+)$")
 
 
 class TLine:
-    __slots__ = ("op", "ret", "ev", "m", "q", "st", "raw")
+    __slots__ = ("op", "ret", "ev", "m", "q", "b", "st", "raw")
 
     def __init__(self, raw):
         m = LINE_RE.match(raw)
@@ -236,7 +236,8 @@ class TLine:
         self.ev = [e for e in m.group(3).split(";") if e]
         self.m = [x for x in m.group(4).split(";") if x]
         self.q = [int(x) for x in m.group(5).split(",")]
-        self.st = [int(x) for x in m.group(6).split(",")]
+        self.b = [int(x) for x in m.group(6).split(",")]
+        self.st = [int(x) for x in m.group(7).split(",")]
 
 
 class Trace:
